@@ -647,7 +647,7 @@ class Sched:
                 if op is None:
                     raise ItemError(hp, file, s, 'augmented operator %s is not supported' % type(s.op).__name__)
                 val = [op, ['var', hp], val]
-            self.items.append({'opt': self.opt, 'hp': hp, 'file': file, 'line': s.lineno,
+            self.items.append({'opt': self.opt, 'cls_file': self.chain[0].file, 'hp': hp, 'file': file, 'line': s.lineno,
                                'end_line': getattr(s, 'end_lineno', s.lineno), 'text': text, 'tree': val,
                                'phase': self.phase, 'method': '%s.%s' % (self.chain[self.stack[-1][0]].name, self.stack[-1][1])})
         except ItemError as ex:
@@ -858,7 +858,7 @@ def generate(repo):
             n_classes += 1
             for (ci_idx, mname), (ci, fn, writes, calls) in sorted(reach.items(), key=lambda kv: (kv[1][0].file, kv[1][1].lineno)):
                 for hp, st in writes:
-                    found.append({'opt': cname, 'hp': hp, 'file': ci.file, 'line': st.lineno,
+                    found.append({'opt': cname, 'cls_file': rel, 'hp': hp, 'file': ci.file, 'line': st.lineno,
                                   'text': one_line(ast.get_source_segment(ci.src, st))})
             if not any(v[2] for v in reach.values()):
                 continue
